@@ -52,15 +52,35 @@ type Event struct {
 }
 
 type evlog struct {
-	mu  sync.Mutex
-	evs []Event
+	mu       sync.Mutex
+	evs      []Event
+	activity int64 // events that mean the sync is getting somewhere (see add)
+	maxReq   int64 // highest height any peer has been asked for
 }
 
 func (l *evlog) add(kind, who string, h int64, info string) int {
 	l.mu.Lock()
 	defer l.mu.Unlock()
 	l.evs = append(l.evs, Event{Seq: len(l.evs), Kind: kind, Who: who, H: h, Info: info})
+	// progress: a block saved, a height requested that was never requested before, a peer added or
+	// removed.  Asking again for a height that was already asked for (the pool's 30 s request retry
+	// does that even for blocks it holds) and the answers to it are not progress.
+	switch kind {
+	case "save", "node_add_peer", "node_remove_peer", "handover":
+		l.activity++
+	case "req_received":
+		if h > l.maxReq {
+			l.maxReq = h
+			l.activity++
+		}
+	}
 	return len(l.evs) - 1
+}
+
+func (l *evlog) activityCount() int64 {
+	l.mu.Lock()
+	defer l.mu.Unlock()
+	return l.activity
 }
 
 func (l *evlog) snapshot() []Event {
@@ -147,6 +167,9 @@ func (w *bcWrapper) ReceiveEnvelope(e p2p.Envelope) {
 		}
 		w.recv(e)
 		w.h.log.add("block_delivered", name, height, info)
+		if i := w.h.indexOf(e.Src.ID()); i >= 0 {
+			atomic.AddInt32(&w.h.answered[i], 1)
+		}
 	case *bcproto.StatusResponse:
 		w.recv(e)
 		w.h.log.add("status_delivered", name, msg.Height, fmt.Sprintf("base=%d", msg.Base))
@@ -159,6 +182,10 @@ func (w *bcWrapper) ReceiveEnvelope(e p2p.Envelope) {
 }
 
 func (w *bcWrapper) AddPeer(peer p2p.Peer) {
+	if i := w.h.indexOf(peer.ID()); i >= 0 {
+		atomic.StoreInt32(&w.h.reqs[i], 0)
+		atomic.StoreInt32(&w.h.answered[i], 0)
+	}
 	w.h.log.add("node_add_peer", w.h.nameOf(peer.ID()), 0, "")
 	w.Reactor.AddPeer(peer)
 }
@@ -252,6 +279,64 @@ type harness struct {
 	reconnects      map[string]int
 	errDrops        int32 // peers the node removed with an error
 	honestErrDrops  int32 // honest ones among them
+
+	maxReconnect int
+	reqs         []int32 // per peer: block requests received (since its last connect for honest peers)
+	answered     []int32 // per peer: its blocks delivered to the node's reactor (same)
+	lastAct      map[int]int64
+	quiet        map[int]int
+	stallCh      chan string
+}
+
+func (h *harness) indexOf(id p2p.ID) int {
+	for i, p := range h.peerIDs {
+		if p == id {
+			return i
+		}
+	}
+	return -1
+}
+
+// tick is called when honest peer idx receives one of the node's StatusRequests, which the node
+// broadcasts from its own 10 s ticker: the node's own clock.  Stall oracle: four consecutive tick
+// intervals (40 s by the node's clock, above its 30 s request retry and its peer timeout) without
+// progress (no block saved, no height requested that had not been requested before, no peer added or
+// removed), while
+// this honest peer holds the whole chain, is connected, has answered every request it was given, no
+// hostile peer is connected any more, and the node is below the tip and has not handed over.
+func (h *harness) tick(idx int) {
+	spec := &h.sc.Peers[idx]
+	if !spec.Honest || spec.Height < h.w.last {
+		return
+	}
+	act := h.log.activityCount()
+	h.mu.Lock()
+	if act != h.lastAct[idx] {
+		h.lastAct[idx], h.quiet[idx] = act, 0
+		h.mu.Unlock()
+		return
+	}
+	h.quiet[idx]++
+	q, handed := h.quiet[idx], h.handed
+	h.mu.Unlock()
+	if q < 4 || handed || !h.node.sw.Peers().Has(h.peerIDs[idx]) || atomic.LoadInt32(&h.reqs[idx]) != atomic.LoadInt32(&h.answered[idx]) {
+		return
+	}
+	for i := range h.sc.Peers {
+		if !h.sc.Peers[i].Honest && h.node.sw.Peers().Has(h.peerIDs[i]) {
+			return
+		}
+	}
+	s := h.node.blockStore.Height()
+	if s >= spec.Height-2 {
+		return
+	}
+	what := fmt.Sprintf("the node sits at height %d of %d with no outstanding request: through %d consecutive 10 s status ticks of its own it saved no block, requested no new height and added or removed no peer, although honest peer %s, which holds the whole chain, is connected, has answered all %d requests it was given and no hostile peer is left", s, spec.Height, q, spec.Name, atomic.LoadInt32(&h.reqs[idx]))
+	h.liveFinding("v0-sync-stalled-with-idle-honest-peer", what)
+	select {
+	case h.stallCh <- what:
+	default:
+	}
 }
 
 func (h *harness) nameOf(id p2p.ID) string {
@@ -448,6 +533,7 @@ type Result struct {
 	ElapsedMs    int64          `json:"elapsed_ms"`
 	Inconclusive string         `json:"inconclusive,omitempty"`
 	Aborted      string         `json:"gave_up,omitempty"`
+	Stalled      bool           `json:"stall_oracle_fired,omitempty"`
 }
 
 func (h *harness) checkCommit(ht int64, which string, cm *types.Commit) CommitCheck {
@@ -485,7 +571,15 @@ func (h *harness) checkCommit(ht int64, which string, cm *types.Commit) CommitCh
 
 func runScenario(sc *Scenario, w *world) *Result {
 	start := time.Now()
-	h := &harness{sc: sc, w: w, log: &evlog{}, handCh: make(chan struct{}), reconnects: map[string]int{}}
+	h := &harness{sc: sc, w: w, log: &evlog{}, handCh: make(chan struct{}), reconnects: map[string]int{}, maxReconnect: 6,
+		reqs: make([]int32, len(sc.Peers)), answered: make([]int32, len(sc.Peers)), lastAct: map[int]int64{}, quiet: map[int]int{}, stallCh: make(chan string, 1)}
+	dropBound := int32(12)
+	if sc.Class == "long" {
+		h.maxReconnect, dropBound = 60, 150
+		if sc.Version == "v0" {
+			v0PeerTimeout = 4 * time.Second // see knobs.go
+		}
+	}
 	h.sched = newScheduler(sc.SchedSeed, sc.WindowMs, sc.HoldProb, sc.MaxPerWindow, h.log)
 	h.buildNode()
 	pc := p2pConfig()
@@ -504,11 +598,67 @@ func runScenario(sc *Scenario, w *world) *Result {
 		}
 	}
 	for i := range h.peerSw {
-		if !sc.Peers[i].Late {
+		if !sc.Peers[i].Late && sc.Peers[i].Wave == 0 {
 			p2p.Connect2Switches([]*p2p.Switch{h.node.sw, h.peerSw[i]}, 0, 1)
 		}
 	}
 	abortCh := make(chan string, 1)
+	// waves of peers that connect, are given requests and leave
+	stopWaves := make(chan struct{})
+	var waveWG sync.WaitGroup
+	waveWG.Add(1)
+	go func() {
+		defer waveWG.Done()
+		sleep := func(d time.Duration) bool {
+			select {
+			case <-stopWaves:
+				return false
+			case <-time.After(d):
+				return true
+			}
+		}
+		for wv := 1; ; wv++ {
+			var members []int
+			for i := range sc.Peers {
+				if sc.Peers[i].Wave == wv {
+					members = append(members, i)
+				}
+			}
+			if len(members) == 0 || !sleep(30*time.Millisecond) {
+				return
+			}
+			for _, i := range members {
+				h.log.add("wave_connect", sc.Peers[i].Name, 0, "")
+				p2p.Connect2Switches([]*p2p.Switch{h.node.sw, h.peerSw[i]}, 0, 1)
+			}
+			for k := 0; k < 25; k++ { // until every member has been given requests (0.5 s at most)
+				all := true
+				for _, i := range members {
+					if atomic.LoadInt32(&h.reqs[i]) == 0 {
+						all = false
+					}
+				}
+				if all || !sleep(20*time.Millisecond) {
+					break
+				}
+			}
+			for _, i := range members {
+				h.log.add("wave_leave", sc.Peers[i].Name, 0, fmt.Sprintf("requests=%d", atomic.LoadInt32(&h.reqs[i])))
+				_ = h.peerSw[i].Stop()
+			}
+			for k := 0; k < 100; k++ {
+				gone := true
+				for _, i := range members {
+					if h.node.sw.Peers().Has(h.peerIDs[i]) {
+						gone = false
+					}
+				}
+				if gone || !sleep(20*time.Millisecond) {
+					break
+				}
+			}
+		}
+	}()
 	// honest peers come back after being dropped (as persistent peers do), a bounded number of times
 	stopRe := make(chan struct{})
 	var reWG sync.WaitGroup
@@ -526,7 +676,11 @@ func runScenario(sc *Scenario, w *world) *Result {
 			}
 			// a late peer connects once the node has dropped somebody for an error (1.5 s at the latest)
 			for i := range sc.Peers {
-				if sc.Peers[i].Late && !lateDone[i] && (atomic.LoadInt32(&h.errDrops) > 0 || time.Since(start) > 1500*time.Millisecond) {
+				need := int32(sc.Peers[i].LateAfter)
+				if need < 1 {
+					need = 1
+				}
+				if sc.Peers[i].Late && !lateDone[i] && (atomic.LoadInt32(&h.errDrops) >= need || (need == 1 && time.Since(start) > 1500*time.Millisecond)) {
 					lateDone[i] = true
 					h.log.add("late_connect", sc.Peers[i].Name, 0, "")
 					p2p.Connect2Switches([]*p2p.Switch{h.node.sw, h.peerSw[i]}, 0, 1)
@@ -542,7 +696,7 @@ func runScenario(sc *Scenario, w *world) *Result {
 				h.mu.Lock()
 				n := h.reconnects[sc.Peers[i].Name]
 				h.mu.Unlock()
-				if (sc.Peers[i].Late && !lateDone[i]) || n < 6 || h.node.sw.Peers().Has(h.peerIDs[i]) {
+				if (sc.Peers[i].Late && !lateDone[i]) || n < h.maxReconnect || h.node.sw.Peers().Has(h.peerIDs[i]) {
 					allGone = false
 				}
 			}
@@ -551,7 +705,7 @@ func runScenario(sc *Scenario, w *world) *Result {
 			} else if exhaustedSince.IsZero() {
 				exhaustedSince = time.Now()
 			}
-			if atomic.LoadInt32(&h.honestErrDrops) >= 12 || (allGone && time.Since(exhaustedSince) > 500*time.Millisecond) {
+			if atomic.LoadInt32(&h.honestErrDrops) >= dropBound || (allGone && time.Since(exhaustedSince) > 500*time.Millisecond) {
 				select {
 				case abortCh <- "honest peers were dropped again and again until their re-connect budget was used up":
 				default:
@@ -576,11 +730,11 @@ func runScenario(sc *Scenario, w *world) *Result {
 				h.mu.Lock()
 				n := h.reconnects[sc.Peers[i].Name]
 				done := h.handed
-				if n < 6 && !done {
+				if n < h.maxReconnect && !done {
 					h.reconnects[sc.Peers[i].Name] = n + 1
 				}
 				h.mu.Unlock()
-				if n >= 6 || done {
+				if n >= h.maxReconnect || done {
 					continue
 				}
 				h.log.add("reconnect", sc.Peers[i].Name, 0, "")
@@ -595,9 +749,16 @@ func runScenario(sc *Scenario, w *world) *Result {
 	if sc.Timeouts {
 		wd = 65 * time.Second
 	}
+	if sc.Class == "long" {
+		wd = 150 * time.Second // above the stall oracle's four 10 s ticks after a sync of a few seconds
+	}
 	res := &Result{Scenario: sc, Counts: map[string]int{}}
 	select {
 	case <-h.handCh:
+	case why := <-h.stallCh:
+		res.Watchdog = true
+		res.Aborted = why
+		res.Stalled = true
 	case why := <-abortCh:
 		res.Watchdog = true
 		res.Aborted = why
@@ -605,7 +766,9 @@ func runScenario(sc *Scenario, w *world) *Result {
 		res.Watchdog = true
 	}
 	close(stopRe)
+	close(stopWaves)
 	reWG.Wait()
+	waveWG.Wait()
 	h.sched.stop()
 	_ = h.node.sw.Stop()
 	for _, sw := range h.peerSw {
@@ -861,6 +1024,9 @@ func (h *harness) evaluate(res *Result) {
 		res.Inconclusive = "no hand-over before the wall-clock watchdog"
 		if res.Aborted != "" {
 			res.Inconclusive = "no hand-over: " + res.Aborted
+		}
+		if res.Stalled {
+			res.Inconclusive = "" // decided by the stall oracle, not by a wall clock
 		}
 		if res.LastSeen != nil && (!res.LastSeen.AllValid || !res.LastSeen.AddrOK) {
 			res.Counts["last_seen_invalid_without_handover"]++
